@@ -17,6 +17,7 @@ LEVEL_TEXT = ('Proof (parametric in upper/isspace): accepted iff the upper-cased
               'neither residue nor whitespace, or nothing left); a normalised word is a fixed point; ASCII corollaries (lower case '
               'accepted, every other non-space ASCII character rejected at any position). Tie: constructor/validation fingerprints; '
               'real constructor compared in Coq on structured + malformed strings.')
+LEVEL_NOTE_MINIPY = ' Whole-function semantic ties (source translated to Core/MiniPy terms on every run, proved equal to the model for all inputs): validateSequence and the head of Sequence.__init__ (stored sequence and length).'
 LEVEL_NOTE = 'Closed under the global context. Python Unicode tables enter as per-case oracle tables.'
 TECHNIQUE = 'Coq proof parametric in Section variables + table-driven in-Coq correspondence'
 
